@@ -1,2 +1,7 @@
 //! Reference models of the servers gamedig talks to.
+pub mod gamespy;
+pub mod minecraft;
+pub mod misc;
+pub mod quake;
+pub mod unreal2;
 pub mod valve;
